@@ -66,6 +66,9 @@ class Protocol:
         self.call_sites = 0
         self.memo = {}
         self.unresolved = set()
+        self.is8_free = {}       # function qualname -> reason: ORDER writes there never create/remove a coordinate bond
+        self.keep_exempt = None  # callable(entry qualname, obligation) -> reason | None, consulted when a flush keeps ring caches
+        self.exempted = {}       # (entry, dim, cat, origin) -> reason, for the evidence
 
     # ----------------------------------------------------------------------------------------------------------
     # B2: keep lists of flush_cache / copy and what the kept keys read
@@ -789,11 +792,11 @@ class Protocol:
         if name == 'flush_cache':
             return self.prim_flush(ctx, owner, kw, configs)
         if name == 'calc_labels':
-            return self.discharge(configs, owner, ('LABELS',))
+            return self.relabel(configs, owner)
         if name == 'calc_implicit':
             return self.discharge(configs, owner, ('HYDRO',))
         if name == 'fix_stereo':
-            return self.discharge(configs, owner, ('STEREO',))
+            return self.revalidate_stereo(configs, owner)
         if name == 'flush_stereo_cache':
             return configs
         target = self.repo.lookup(ctx.cls, name, after=start_after)
@@ -861,6 +864,25 @@ class Protocol:
         return frozenset(out)
 
     # -- primitives -------------------------------------------------------------------------------------------------
+    RING_CATS = ('ATOMS', 'TOPO', 'IS8')
+
+    def relabel(self, configs, owner):
+        """calc_labels reads the ring caches: labels recomputed while a ring-affecting write is still unflushed are computed
+        from stale rings, so such writes keep their LABELS obligation (ordering part of the cache-content argument)"""
+        out = set()
+        for pend, facts in configs:
+            stale_origins = {o[3] for o in pend if o[2] == owner and o[0] in ('FLUSH', 'KEEP') and o[1] in self.RING_CATS}
+            out.add((frozenset(o for o in pend if not (o[2] == owner and o[0] == 'LABELS' and o[3] not in stale_origins)), facts))
+        return frozenset(out)
+
+    def revalidate_stereo(self, configs, owner):
+        """fix_stereo reads orders, rings and stereogenic sets through the cache: it only counts for writes already flushed"""
+        out = set()
+        for pend, facts in configs:
+            stale_origins = {o[3] for o in pend if o[2] == owner and o[0] in ('FLUSH', 'KEEP') and o[1] != 'STEREO'}
+            out.add((frozenset(o for o in pend if not (o[2] == owner and o[0] == 'STEREO' and o[3] not in stale_origins)), facts))
+        return frozenset(out)
+
     def discharge(self, configs, owner, dims, cats=None):
         out = set()
         for pend, facts in configs:
@@ -890,9 +912,20 @@ class Protocol:
                         val = True
                     if val:
                         kept_cats |= self.kept_reads[flag]
-            new = frozenset(o for o in pend if not (o[2] == owner and o[0] == 'FLUSH' and o[1] not in kept_cats))
-            # what survives is now a keep-list problem: mark it
-            new = frozenset((('KEEP',) + o[1:]) if (o[2] == owner and o[0] == 'FLUSH') else o for o in new)
+            new = set()
+            for o in pend:
+                if o[2] == owner and o[0] == 'FLUSH':
+                    if o[1] not in kept_cats:
+                        continue  # flushed
+                    k = ('KEEP',) + o[1:]  # survives: a keep-list problem from here on
+                    why = self.keep_exempt(ctx.stack[0].split(':')[1], k) if self.keep_exempt else None
+                    if why is not None:
+                        self.exempted[(ctx.stack[0], 'KEEP', o[1], o[3])] = why
+                        continue
+                    new.add(k)
+                else:
+                    new.add(o)
+            new = frozenset(new)
             out.add((new, facts))
         return frozenset(out)
 
@@ -913,6 +946,9 @@ class Protocol:
                 elif isinstance(rhs, ast.Name) and ('ne8', rhs.id) in facts:
                     new8 = False
                 elif isinstance(rhs, ast.BinOp):  # order +- 1 arithmetic never yields 8 from 1..4
+                    new8 = False
+                if new8 and ctx.func.qualname in self.is8_free:
+                    self.exempted[(ctx.stack[0], 'KEEP', 'IS8', origin)] = self.is8_free[ctx.func.qualname]
                     new8 = False
                 if new8:
                     cats.append('IS8')
